@@ -273,7 +273,7 @@ def nt_count(body, V):
 
 
 @st.composite
-def weights(draw, g, regime):
+def weights(draw, g, regime, style=None):
     "attach weights (strings) to a raw grammar according to the regime"
     rules = g["rules"]
     V = g["V"]
@@ -287,9 +287,9 @@ def weights(draw, g, regime):
     elif regime == "FREE":
         ws = [f"x{i + 1}" for i in range(len(rules))]
     else:
-        style = draw(st.integers(0, 9))
+        style = draw(st.integers(0, 9)) if style is None else style
         nonrec = cfgref.find_cycle_rule([(h, y, r) for r, (h, b) in enumerate(rules) for y in b if y not in V]) is None
-        if nonrec and regime in ("QQ", "REAL", "FLOAT") and style < 4:
+        if nonrec and regime in ("QQ", "REAL", "FLOAT") and style < 4 and style is not None:
             # a non-recursive grammar has finitely many derivations: any weights do, also > 1
             ws = [draw(st.sampled_from(FREE_W + ["5/2", "7", "1/8"])) for _ in rules]
         elif style in (6, 7):
@@ -352,13 +352,13 @@ SHAPE = {
 
 
 @st.composite
-def grammar(draw, regimes=("BOOL", "MT", "FREE", "QQ", "FLOAT"), shape=None, symbols=False, signed=False, tiny=False, **kw):
+def grammar(draw, regimes=("BOOL", "MT", "FREE", "QQ", "FLOAT"), shape=None, symbols=False, signed=False, tiny=False, weight_style=None, **kw):
     regime = draw(st.sampled_from(list(regimes)))
     g = draw(raw_grammar(**kw))
     mode = shape or SHAPE.get(regime)
     if mode:
         g = repair(g, mode)
-    g["rules"] = draw(weights(g, regime))
+    g["rules"] = draw(weights(g, regime, weight_style))
     g["regime"] = regime
     if signed and regime == "QQ" and draw(st.integers(0, 1)) == 0:
         # a field is a commutative semiring too: signed weights (absolute values stay dominated, so
